@@ -37,7 +37,7 @@ def main():
             "quick_cmd": f"./check {pid} --tier quick",
             "thorough_cmd": f"./check {pid} --tier thorough",
             "evidence_file": f"/verif/evidence/{pid}.json",
-            "replay_cmd_template": "cat {path}",
+            "replay_cmd_template": "./check --replay {path}",
             "engine": c.get("engine", "pyvc"),
             "level_claimed": {"category": c["cat"], "text": c["text"], "design_ref": c["ref"]},
             "level_note": c["note"],
